@@ -69,6 +69,14 @@ fn handle(req: &J) -> J {
         "serde" => ops::serde_roundtrip(req),
         "threads" => run::threads(req),
         "reuse" => run::reuse(req),
+        // Deliberate read of uninitialised heap memory: used only by tools/sanitizer_selftest.py to
+        // show that the Miri / memcheck tiers do report when there is something to report.
+        "selftest_uninit" => {
+            let v: Vec<u8> = Vec::with_capacity(64);
+            #[allow(unsafe_code)]
+            let b = unsafe { std::ptr::read_volatile(v.as_ptr().add(3)) };
+            json!({"selftest": if b == 7 { "seven" } else { "other" }})
+        }
         _ => json!({"bad_request": format!("unknown op {op}")}),
     });
     match r {
